@@ -19,7 +19,7 @@ RULE = ("every option of the README's Configuration section and of the generate 
         "class_overrides x {class, module, both}, field_prefix, use_path_prefixes_for_title_model_names, literal_enums, "
         "docstrings_on_attributes, generate_all_tags, content_type_overrides, --meta x4, --file-encoding x3, --custom-template-path x "
         "every template file, post_hooks, --output-path) alone and under each of 6 context option sets (pairs), over 6 documents; one "
-        "metamorphic relation per option, checked on bytes, ASTs or executed behaviour; non-trivial = relation evaluated; documents include equal module names under different tags, identical inline enums merged through class_overrides, builtin-like class names, override keys with parameters / upper case / malformed")
+        "metamorphic relation per option, checked on bytes, ASTs or executed behaviour; non-trivial = relation evaluated; documents include equal module names under different tags, identical inline enums merged through class_overrides, builtin-like class names, override keys with parameters / upper case / malformed; a multi-tag operation with inline schemas under generate_all_tags, the package name derived from an overridden project name, every option through yaml / json / extension-less config files via the real command line, post-hook lists with missing tools, custom templates with non-ASCII text x file encodings")
 FLOOR = 0.5
 CASE_LIMIT = 120
 ASSUMPTIONS = ["relations per DESIGN §C16; behaviour = re-encoded model instances built from the annotations' inhabitants + captured requests"]
